@@ -103,6 +103,7 @@ def cases(shard, tier):
             for bins in (1, 2, 3, 4):
                 yield ["hist", d1, list(t1), bins, None]
             yield ["hist", d1, list(t1), 3, [-1.0, 3.0]]
+            yield ["hist", d1, list(t1), None, None]
             if L <= 3:
                 for L2 in (1, 2):
                     for t2 in itertools.product(range(len(VALS[d1])), repeat=L2):
@@ -321,7 +322,7 @@ def _check_hist(case, acc, a, ra):
     acc.feature("histogram")
     if a.dtype == np.bool_:
         return acc.undefined()
-    kw = {"bins": bins}
+    kw = {"bins": bins} if bins is not None else {}       # None: numpy's default number of bins
     if rng is not None:
         kw["range"] = tuple(rng)
     try:
